@@ -83,16 +83,34 @@ func TestVerifC02PSK(t *testing.T) {
 		fixed = append(fixed, 7, 127, 128, 129, 4095, 4097, 70000)
 	}
 	r.Bounds["L"] = lengths
-	r.Bounds["write_splits"] = "whole, 1+rest, rest+1, 24+rest, 64+rest, thirds, 0+L+0, 1-byte writes for L<=4097"
+	r.Bounds["write_splits"] = "whole, 1+rest, rest+1, 24+rest, 64+rest, thirds, 0+L+0, thirds with zero-length writes between them [a,0,a,0,0,rest], 1-byte writes for L<=4097"
+	if !thorough {
+		r.Bounds["quick_reduction_zero_length_writes"] = "the split with zero-length writes in between only with short reads {unlimited,1} underneath"
+	}
 	r.Bounds["short_read_patterns(cyclic, 0=unlimited)"] = shorts
 	r.Bounds["directions"] = "alternating a->b / b->a on every connection, both parities"
 	r.Bounds["read_after"] = "each write | last write"
 	r.Bounds["read_sizes"] = fmt.Sprintf("%v, L+1, remaining-1, remaining, remaining+1", fixed)
+	// zero-length reads (len(buf) = 0) interleaved: z(i mod n) of them before the i-th non-empty Read; with
+	// pattern [1] / [2,0] the very first Read of a direction (the one that has to fetch the nonce) is empty.
+	// Two of them, so that each meets both directions (the policies alternate directions)
+	zeroPols := []memconn.Policy{memconn.Fixed(25).WithZeros(1), memconn.Rel(-1).WithZeros(2, 0)}
+	if thorough {
+		zeroPols = append(zeroPols, memconn.Fixed(1).WithZeros(1, 2), memconn.Rel(0).WithZeros(1), memconn.Fixed(64).WithZeros(0, 1), memconn.Fixed(4096).WithZeros(0, 0, 3))
+	}
+	var zn []string
+	for _, p := range zeroPols {
+		zn = append(zn, p.Name)
+	}
+	r.Bounds["read_sizes_with_zero_length_reads(z(i mod n) empty-buffer Reads before the i-th non-empty Read)"] = zn
 	payloads := map[string][]byte{}
 	for _, L := range lengths {
-		pols := memconn.Policies(append(append([]int{}, fixed...), L+1), []int{-1, 0, 1})
+		pols := append(memconn.Policies(append(append([]int{}, fixed...), L+1), []int{-1, 0, 1}), zeroPols...)
 		for _, sp := range memconn.Splits(L, []int{24, 64}, 4097) {
 			for _, short := range shorts {
+				if !thorough && sp.Name == "thirds+0s" && short[0] > 1 {
+					continue // quick: the split with zero-length writes in between only with short reads {unlimited,1}
+				}
 				if !b.Mine(sp.Sizes, short) {
 					continue
 				}
